@@ -102,6 +102,8 @@ var specs = map[string]*propSpec{
 		Batches: []batch{
 			{Name: "norace", Flavour: "plain", Quick: 2400, Thorough: 120000, PerProc: 150, Progress: true, TimeoutS: 600},
 			{Name: "race", Flavour: "race", Env: []string{"GORACE=halt_on_error=1"}, Quick: 1200, Thorough: 40000, PerProc: 100, Progress: true, TimeoutS: 900},
+			{Name: "cache-component", Flavour: "plain", Workload: "C08cache", Quick: 40000, Thorough: 2000000, PerProc: 4000, Progress: true, TimeoutS: 600},
+			{Name: "cache-component-race", Flavour: "race", Workload: "C08cache", Env: []string{"GORACE=halt_on_error=1"}, Quick: 8000, Thorough: 300000, PerProc: 1000, Progress: true, TimeoutS: 600},
 			{Name: "race-optdec+vm", Flavour: "race", Env: []string{"GORACE=halt_on_error=1", "SONIC_USE_OPTDEC=1", "SONIC_ENCODER_USE_VM=1"}, Quick: 400, Thorough: 20000, PerProc: 100, Progress: true, TimeoutS: 900},
 			{Name: "norace-optdec+fastmap", Flavour: "plain", Env: []string{"SONIC_USE_OPTDEC=1", "SONIC_USE_FASTMAP=1"}, Quick: 600, Thorough: 30000, PerProc: 150, Progress: true, TimeoutS: 600},
 		},
